@@ -52,6 +52,15 @@ def cases(tier, seed):
                         continue
                     cs.append({'kind': 'spelling', 'hkind': kind, 'host': h, 'port': port, 'spelling': spelling, 'place': place, 'ip': ipopts[n % len(ipopts)] if n % 3 == 0 else [], 'order': orders[n % 4],
                                'fmt': ['json', 'text', 'policy'][n % 3], 'seed': rng.randrange(1 << 30)})
+    # bare IPv6 literals whose last group(s) look like a port: without brackets the whole string is the host
+    for j, h in enumerate(['fe80::1:22', '2001:db8::2:1', '::ffff:0:8080', '2001:db8::a:2222', '2001:db8:0:0:0:0:7:22', '1::2:3:4:5:6:6553', '::22', '::1:2222']):
+        for spelling, port in (('plain', 22), ('p-option', 2222), ('p-option', 22), ('hostport', 8022), ('both', 8022)):
+            for place in ('cmdline', 'file'):
+                n += 1
+                if tier == 'quick' and (j + n) % 2 and spelling in ('hostport', 'both'):
+                    continue
+                cs.append({'kind': 'spelling', 'hkind': 'v6', 'host': h, 'port': port, 'spelling': spelling, 'place': place, 'ip': [['-6'], [], ['-46']][n % 3], 'order': 'v6only', 'fmt': ['json', 'text', 'policy'][n % 3], 'seed': rng.randrange(1 << 30),
+                           'portlike': True})
     for opt in ipopts:
         for order in orders:
             for kind, h in (('name', 'dual.example'), ('v4', V4), ('v6', V6)):
